@@ -153,10 +153,12 @@ def check_execstack(ev, seen, tier="quick"):
     cfgs = [Cfg("asm"), Cfg("c32", 3, 3, 3)] if tier == "quick" else [Cfg("asm"), Cfg("c32", 3, 3, 3), Cfg("c64", 2, 1, 2), Cfg("dxor", 4, 4, 4), Cfg("generic"), Cfg("generic", 4, 2, 4, checker=True)]
     for cfg in cfgs:
         check_execstack_cfg(ev, seen, cfg)
+    check_execstack_cfg(ev, seen, Cfg("asm", instr="minimal"), minimal=True)
 
 
-def check_execstack_cfg(ev, seen, cfg):
-    d = build_lib(cfg, targets=("ascon", "ascon_static", "asconcrypt", "asconsum"))
+def check_execstack_cfg(ev, seen, cfg, minimal=False):
+    # -DMINIMAL=ON builds the static library only: its objects are inspected, there is nothing linked to look at
+    d = build_lib(cfg, targets=("ascon_static",) if minimal else ("ascon", "ascon_static", "asconcrypt", "asconsum"))
     tagc = "" if cfg.backend == "asm" else " [%s build]" % cfg.name
     lib = os.path.join(d, "src", "libascon_static.a")
     rc, out = sh(["ar", "t", lib])
@@ -190,7 +192,7 @@ def check_execstack_cfg(ev, seen, cfg):
                            "global %s in %s is %s, not a function symbol (no PLT / canonical address: a function pointer taken in a non-PIC executable against libascon.so points at a data copy)%s" % (f[7], o, f[3], tagc), seen)
                 ev.classes["elf-global-symbol"] = ev.classes.get("elf-global-symbol", 0) + 1
     shutil.rmtree(tmp, ignore_errors=True)
-    linked = [os.path.join(d, "src", "libascon.so"), os.path.join(d, "apps", "asconcrypt", "asconcrypt"), os.path.join(d, "apps", "asconsum", "asconsum")]
+    linked = [] if minimal else [os.path.join(d, "src", "libascon.so"), os.path.join(d, "apps", "asconcrypt", "asconcrypt"), os.path.join(d, "apps", "asconsum", "asconsum")]
     for p in linked:
         ev.evaluations += 1
         ev.hashes.add(hashlib.sha256(("elf" + os.path.basename(p)).encode()).digest()[:8])
